@@ -352,6 +352,20 @@ Section TreeFacts.
       rewrite IH, child_cum_eq. reflexivity.
   Qed.
 
+  (* unconditionally (any ancestors, any Num instance): a reported size is the difference of the two rounded *absolute*
+     edges, the cumulative coordinate being the sum of all ancestors' unrounded locations plus the node's own *)
+  Lemma size_from_absolute_edges (t : tree T) p u r :
+    node_at t p = Some u -> node_at (round_layout t) p = Some r ->
+    let ax := add (sum_x (ancestors t p)) (location_x u) in
+    let ay := add (sum_y (ancestors t p)) (location_y u) in
+    size_width r = sub (fround (add ax (size_width u))) (fround ax) /\
+    size_height r = sub (fround (add ay (size_height u))) (fround ay) /\
+    location_x r = fround (location_x u) /\ location_y r = fround (location_y u).
+  Proof.
+    intros Nu Nr. rewrite round_layout_eq, node_at_round_tree, Nu in Nr. cbn [option_map] in Nr.
+    inversion Nr; subst r. repeat split.
+  Qed.
+
   Lemma tree_all_node_at (P : layout T -> Prop) : forall p (t : tree T) u,
     tree_all P t -> node_at t p = Some u -> P u.
   Proof.
